@@ -82,6 +82,13 @@ def gen(tier, rng):
         [f"F:-:{hexs('f@x.y')}", f"F:-:{hexs('g@x.y')}", f"T:-:{hexs('t@x.y')}"],
         [f"F:-:{hexs('f@x.y')}", f"F:-:{hexs('g@x.y')}", f"S:-:{hexs('s@x.y')}", f"T:-:{hexs('t@x.y')}"])]
     cases += mboxgen.build_cases(rng, {"quick": 300, "search": 1000, "thorough": 5000}[tier])
+    # mailbox headers on the wire: one mailbox under every header kind, and lists of 1..50 mailboxes (folding, the 998 limit)
+    cases += mboxgen.mbox_cases(rng, {"quick": 200, "search": 600, "thorough": 3000}[tier])
+    cases += mboxgen.list_cases(rng, {"quick": 300, "search": 1000, "thorough": 5000}[tier])
+    for k in (20, 60, 120):
+        cases.append("mboxlist\t" + ",".join(f"-:{hexs('recipient%d@example.org' % i)}" for i in range(k)))
+        cases.append("mboxlist\t" + ",".join(f"{hexs('Name %d' % i)}:{hexs('recipient%d@example.org' % i)}" for i in range(k)))
+        cases.append("build\t" + ",".join([f"F:-:{hexs('f@x.y')}"] + [f"{'TCB'[i % 3]}:-:{hexs('recipient%d@example.org' % i)}" for i in range(k)]))
     return cases
 
 
@@ -94,9 +101,12 @@ def nontrivial(case):
 
 
 def shrinkable(case):
-    if case.startswith("typed"):
+    op = case.split("\t")[0]
+    if op == "typed":
         return [3]
-    return [1, 2] if case.startswith("hval") else [1]
+    if op in ("mbox", "mboxlist", "build"):
+        return [1] if op == "mbox" else []
+    return [1, 2] if op.startswith("hval") else [1]
 
 
 def distribution(cases):
@@ -204,5 +214,54 @@ def _space_run_over_998(f, o, v):
     return bool(long_lines) and all(b" " * 900 in l for l in long_lines)
 
 
-FINDING_CLASSES = {"content-disposition-escaped-name-over-78": _cdisp_escaped, "tab-not-a-fold-point": _tab_not_fold_point, "trailing-white-space-past-78": _trailing_ws_past_78,
+def _mailbox_block(o):
+    """the header block of a mailbox header in an `mbox` / `mboxlist` output line"""
+    for x in reversed(o):
+        if "|wire:" in x:
+            x = x.split("|wire:", 1)[1].split(";", 1)[0]
+        elif ":" in x:
+            x = x.split(":", 1)[0]
+        try:
+            b = unhex(x)
+        except Exception:
+            continue
+        if b.endswith(b"\r\n") and b": " in b[:20]:
+            return b
+    return None
+
+
+def _name_start_not_folded(f, o, v):
+    """a mailbox header: the first word of a display name (a plain atom, the opening quote with its first word, the first
+    encoded-word) is written without looking at the room left on the line (quoted_string::encode of the email-encoding
+    crate); the line would have been within 78 octets had it been folded before that word"""
+    if f[0] not in ("mbox", "mboxlist") or "line-over-78-without-a-token-that-long" not in v:
+        return False
+    block = _mailbox_block(o)
+    if block is None:
+        return False
+    import re as _re
+    name_start = _re.compile(rb'^("[A-Za-z0-9 \-_.\\"]*|[A-Za-z0-9\-_.]+|=\?utf-8\?b\?[A-Za-z0-9+/=]+\?=)$')
+    hit = False
+    for line in block.split(b"\r\n"):
+        if len(line) <= 78:
+            continue
+        # a line with a token that cannot fit on any line is not what the oracle complains about
+        cont = line[:1] in (b" ", b"\t")
+        pre = 1 if cont else line.find(b":") + 2
+        body = line if cont else line[line.find(b":") + 1:]
+        if any(pre + len(t) > 78 for t in _re.split(rb"[ \t]", body)):
+            continue
+        # the last mailbox separator that is still within the limit: what follows it on this line is the start of a
+        # display name (an atom, an opening quote with the words up to the fold, or one encoded-word) and nothing else
+        i = line.rfind(b", ", 0, 78)
+        if i < 0:
+            return False
+        seg = line[i + 2:].rstrip(b" \t")
+        if not seg or not name_start.match(seg):
+            return False
+        hit = True
+    return hit
+
+
+FINDING_CLASSES = {"mailbox-name-start-not-folded": _name_start_not_folded, "content-disposition-escaped-name-over-78": _cdisp_escaped, "tab-not-a-fold-point": _tab_not_fold_point, "trailing-white-space-past-78": _trailing_ws_past_78,
                    "spaces-before-encoded-word": _spaces_before_encoded_word, "space-run-over-998": _space_run_over_998}
